@@ -137,6 +137,22 @@ func RunC15(c *Ctx) {
 			do(s)
 		}
 	}
+	// long values: a plain run of every length around powers of two and block sizes, with one special unit at the start,
+	// right after the run, or at the very end (buffers, scan limits and fast paths decided on a prefix)
+	for _, L := range []int{15, 16, 17, 31, 32, 33, 63, 64, 65, 127, 128, 129, 255, 256, 257, 511, 512, 513, 1000, 1023, 1024, 1025, 1100, 2047, 2048, 2049, 4095, 4096, 4097, 8192, 8193, 65535, 65536, 65537, 70001} {
+		for _, fill := range []string{"a", "a b", "é"} {
+			run := strings.Repeat(fill, L/len(fill)+1)[:L]
+			if fill == "é" {
+				run = strings.Repeat(fill, L/2)
+			}
+			for _, u := range []string{"", "\n", "\\", "'", "\"", "`", "\x00", "\xff", "'\"", "\r\n", "\u2028", "\ufffd", "?"} {
+				do(run + u)
+				do(u + run)
+				do(run + u + run[:min(len(run), 40)])
+			}
+		}
+	}
+	c.Count("long_value_lengths", 35)
 	// random longer strings, including invalid UTF-8, quotes, backslashes, controls
 	r := gen.NewRand(c.Seed, 1500+uint64(c.Shard))
 	n := c.Pick(300_000, 6_000_000) / ns
